@@ -6,7 +6,7 @@ GROUP = "Secrets"
 META = {
     "group": GROUP,
     "technique": "Coq proof that the shared elision decision covers every secret-bearing setting name for any store + vm_compute correspondence and canary scan against both real /admin/config handlers",
-    "text": "Theorems C44_config / C44_response_named_clean / C44_response_all_clean: for every settings store and every request, a setting whose name is secret-bearing (the names defined in internal/defs, compared case-insensitively, or any name mentioning a password) is returned as the elided placeholder by both configuration handlers; C44_current_names discharges the side condition for the names of this tree (re-read from the code on every run). The decision function of the model is compared with both real handlers on generated names, and the raw response bodies are scanned for canary values. partial: user, DSN and OAuth-client endpoints elide by assigning a constant to the password field (read, not modelled); they are not driven by this check.",
+    "text": "Theorems C44_config / C44_response_named_clean / C44_response_all_clean: for every settings store and every request, a setting whose name is secret-bearing (the names defined in internal/defs, compared case-insensitively, or any name mentioning a password) is returned as the elided placeholder by both configuration handlers; C44_current_names discharges the side condition for the names of this tree (re-read from the code on every run). The decision function of the model is compared with both real handlers on generated names, and the raw response bodies are scanned for canary values. partial: the /admin/users handlers are only observed (created/updated/listed/deleted users with canary passwords; every response body scanned for the plaintext and the stored credential); DSN and OAuth-client endpoints are read, not driven.",
     "note": "Trusted: Coq kernel; the hand-written model of isSecretSetting / the two handlers (ASCII names; strings.EqualFold and ToLower modelled on ASCII) tied to the code by the correspondence run; the reading of the property that fixes which settings are secret-bearing (token key, logon and refresh tokens, userdata key, default credential, OAuth client secret, any *password* name).",
 }
 ALPHA = "abcdefghijklmnopqrstuvwxyz.ABCDEFGHIJKLMNOPQRSTUVWXYZ_0123456789"
@@ -120,6 +120,30 @@ def run(ck):
     for n in names[:4] + names[-3:]:
         ck.sample({"name": n, "GET_all": A.get(n), "POST_named": O.get(n), "secret_by_spec": spec_secret(n)})
 
+    # ---- observed remainder: the /admin/users handlers with canary passwords
+    ok2, bin2 = vf.go_test_build(ck.work, "internal/server/admin/users",
+                                 {"internal/server/admin/users/zz_verif_c44u_test.go": os.path.join(vf.HARNESS, "C44", "users_canary_test.go")},
+                                 "c44u.test")
+    if not ok2:
+        ck.violation("harness-build-users", "users harness does not build:\n" + bin2[-1500:], replay={"log": bin2[-3000:]}, found_input=False)
+    else:
+        out2 = os.path.join(ck.work, "out_users.txt")
+        rc, log = vf.run_bin(bin2, "^TestVerifC44Users$", {"VERIF_OUT": out2, "VERIF_N": "4" if quick else "25"}, cwd=ck.work)
+        calls, leaks = 0, []
+        if rc != 0 or not os.path.exists(out2):
+            ck.violation("harness-run-users", "users harness failed:\n" + log[-1500:], replay={"log": log[-3000:]}, found_input=False)
+        else:
+            for line in open(out2):
+                f = line.split()
+                if f[0] == "C":
+                    calls += 1
+                elif f[0] == "L":
+                    leaks.append(f[1:])
+            for lk in leaks[:5]:
+                ck.violation("users-leak:" + lk[0], "/admin/users handler %r put the %s password of user %s into its response body" % (lk[0], lk[1], lk[2]),
+                             replay={"handler": lk[0], "kind": lk[1], "user": lk[2]})
+            ck.cov["evaluations"] += calls
+            ck.cov["input_distribution"]["user_handler_calls_scanned"] = calls
     # ---- correspondence + regenerated obligation
     if getattr(ck, "coq_broken", None):
         return
